@@ -228,6 +228,13 @@ PROPS.update({
 })
 
 
+# C05 also runs the stream/unary interceptor programs of C12 under its own oracle (panics only).
+PROPS["C05"]["parts"].append(dict(pkg="./icept", test="TestC05Stream", replay_key="steps", quick_checks=4000, thorough_checks=150000))
+PROPS["C05"]["quick"]["shards"] = 8
+PROPS["C05"]["thorough"]["shards"] = 16
+PROPS["C05"]["rule"] += (" A further part runs the stream and unary interceptor programs of C12 (the interceptors are calls made by the application) with the oracle reduced to 'no method panics';"
+                         " any other failure there belongs to C12 and ends the case.")
+
 # Additions made after the mutation and defect-hunt rounds (what the generators and oracles cover beyond the text above).
 RULE_ADDENDA = {
     "C01": "Also: UNBIND calls of a not yet bound key in flight while its BIND completes (unbindrace); completions of kind 'pick discarded by gRPC' (Done(DoneInfo{}) with nothing sent or received: no effect expected - open known finding discarded-pick-treated-as-completion); scheduled program sched-bindswap (BIND completion vs take-over, then two BOUND calls must land on the replacement).",
